@@ -382,6 +382,24 @@ Fixpoint script_events (st : state) (s : list sop) : list event :=
       end
   end.
 
+(** per-operation trace for the correspondence: after each script operation the counter, the exit
+    status, the wedge flag and the log so far *)
+Definition pview (st : state) : Z * option cause * bool * list obs :=
+  (total st, exited st, wedged st, rev (log st)).
+
+Fixpoint script_trace (st : state) (s : list sop) : list (Z * option cause * bool * list obs) :=
+  match s with
+  | [] => []
+  | o :: r =>
+      match exited st with
+      | Some _ => pview st :: script_trace st r
+      | None => match run st (expand st o) with
+                | Some st' => pview st' :: script_trace st' r
+                | None => []                       (* an event of the script was not enabled *)
+                end
+      end
+  end.
+
 (** What the harness can observe. *)
 Definition cview (c : client) : phase * bool := (cphase c, counted c).
 
